@@ -78,6 +78,30 @@ class Outcome(object):
     return '<%s %r>' % (self.kind, self.value)
 
 
+def _abstract(v):
+  if isinstance(v, (str, int, float, bool)) or v is None:
+    return Const(v)
+  if isinstance(v, (list, tuple)):
+    out = tuple(_abstract(x) for x in v)
+    return None if any(x is None for x in out) else out
+  return None
+
+
+def _named_constant(name_node):
+  """a module / class level constant of the code (sa/tables.definition) as an
+  abstract value; None when the name is not one."""
+  from . import tables
+  if getattr(name_node, '_mod', None) is None:
+    return None
+  try:
+    d = tables.module_constant(name_node._mod, name_node.id)
+    if d is None:
+      return None
+    return _abstract(tables.const_value(d))
+  except AnalysisError:
+    return None
+
+
 _KEY_CACHE = {}
 
 
@@ -158,6 +182,9 @@ class Interp(object):
         return st.env[node.id]
       if node.id in ('True', 'False', 'None'):
         return Const({'True': True, 'False': False, 'None': None}[node.id])
+      v = _named_constant(node)
+      if v is not None:
+        return v
       return Sym(node.id, node)
     if isinstance(node, (ast.Tuple, ast.List)):
       return tuple(self.value(e, st) for e in node.elts)
